@@ -297,6 +297,10 @@ def kf_family(out, tier, cls, state_cls, inits, letters, group):
                     steps += st
                     if any(s.get("bind") == nxt for s in st):
                         cur = nxt
+                # every state handed to predict / update / distance is dumped once more at the end: the filters
+                # read their arguments, they must not write into them
+                bound_states = ["s0"] + [f"s{k + 1}" for k in range(len(w)) if any(s.get("bind") == f"s{k + 1}" for s in steps)]
+                steps += [dump(state_cls, n) for n in bound_states]
                 meta = {}
                 if focus is not None:
                     meta = {"control": control_id, "defaults_of": cls,
@@ -427,6 +431,7 @@ SORT_LISTS = {
     "l2": [("A2", 11), ("B2", None)],
     "l3": [],
     "l4": [("A", 5), ("C", 3)],
+    "l5": [("E", None)],
 }
 # observations for VisualSort / BatchVisualSort: (feature, quality, box, custom object id)
 VIS_LISTS = {
@@ -434,6 +439,7 @@ VIS_LISTS = {
     "l2": [([0.9, 0.1], 0.95, "A2", 11), (None, None, "B2", None)],
     "l3": [],
     "l4": [([1.0, 1.0], 0.7, "A", 5), ([0.5, 0.5], None, "C", 3)],
+    "l5": [(None, None, "E", None)],
 }
 
 
@@ -669,6 +675,7 @@ def batch_letters(cls, pre, vis, two_scenes):
         "pb1": predict([(0, "l1")]),
         "pb2": predict([(0, "l2")]),
         "pbe": predict([]),
+        "pb5": predict([(0, "l5")]),
         "sk": lambda: [call(cls, "t", "skip_epochs", 3)],
         "sks": lambda: [call(cls, "t", "skip_epochs_for_scene", 3, 7)],
         "idle": lambda: [call(cls, "t", "idle_tracks", 0, unordered=True)],
@@ -686,15 +693,17 @@ def batch_letters(cls, pre, vis, two_scenes):
     return letters
 
 
-def tracker_words(out, group, maxlen, ctor_prelude, ctor, make_letters, suffix, meta):
+def tracker_words(out, group, maxlen, ctor_prelude, ctor, make_letters, suffix, meta, prefix=(), only=None):
     names = None
     pre0 = Prelude()
     names = sorted(make_letters(pre0))
+    if only is not None:
+        names = [n for n in names if n in only]
     for w in words(names, maxlen):
         pre = Prelude()
         letters = make_letters(pre)
         body = []
-        for l in list(w) + suffix:
+        for l in list(prefix) + list(w) + suffix:
             body += letters[l]()
         m = dict(meta)
         if any(l == "pb3" for l in w):
@@ -727,6 +736,25 @@ def group_f(out, tier):
                   new("BatchVisualSort", "t", distance_shards=1, voting_shards=1, opts=R("o")),
                   lambda pre: batch_letters("BatchVisualSort", pre, True, True), bsuffix,
                   {"variant": "custom-opts"})
+
+    # expiry by predict calls alone (no skip, no wasted() in between): the tracks of the first call expire while
+    # the internal periodic collection has not run; then every word over {clear_wasted, wasted, shard_stats,
+    # idle_tracks, predict}
+    exp_only = ["cw", "w", "st", "idle", "p1", "pb1"]
+    sv = sort_ctor_variants()[1]
+    tracker_words(out, "f-sort", 2, sv[1], sv[2], lambda pre: simple_letters("Sort", pre, False), SUFFIX,
+                  {"variant": "expiry-by-predict"}, prefix=["p1", "p3", "p3"], only=exp_only)
+    vv = vis_opts_variants()[1]
+    tracker_words(out, "f-visualsort", 2, vv[1], vv[2], lambda pre: simple_letters("VisualSort", pre, True), SUFFIX,
+                  {"variant": "expiry-by-predict"}, prefix=["p1", "p3", "p3"], only=exp_only)
+    tracker_words(out, "f-batchsort", 2, [static(PM, "iou", "pm", 0.3)],
+                  new("BatchSort", "t", 1, 1, 2, 1, R("pm"), 0.05, None, 0.05, 0.00625),
+                  lambda pre: batch_letters("BatchSort", pre, False, True), bsuffix, {"variant": "expiry-by-predict"},
+                  prefix=["pb1", "pb5", "pb5"], only=exp_only)
+    tracker_words(out, "f-batchvisualsort", 2, vo[1],
+                  new("BatchVisualSort", "t", distance_shards=1, voting_shards=1, opts=R("o")),
+                  lambda pre: batch_letters("BatchVisualSort", pre, True, True), bsuffix,
+                  {"variant": "expiry-by-predict"}, prefix=["pb1", "pb5", "pb5"], only=exp_only)
 
     # result-object protocol: get() one by one, ready() observed by polling, request reused, prediction()
     RES = "PredictionBatchResult"
